@@ -5,6 +5,7 @@ package main
 // R04.zero, R04.nlm, R10.supp).
 
 import (
+	"os"
 	"fmt"
 	"go/ast"
 	"go/token"
@@ -129,6 +130,47 @@ func (w *World) buildScoreModel(add func(ok bool, rule, inst string, n ast.Node,
 }
 
 func (w *World) rulesV4Score(out *[]Obligation) {
+	var first []Obligation
+	w.rulesV4ScoreOn(&first)
+	bad := 0
+	for _, o := range first {
+		if !o.OK {
+			bad++
+		}
+	}
+	if bad > 0 && !w.normalized {
+		// the decomposition is stated over Score's locals: undo the two
+		// refactorings that move values out of locals (normalize.go) and retry
+		w2, notes, err := w.normalizedWorld("40", []string{"Score"})
+		if err != nil {
+			w.Extra["v4_normalisation"] = "not applicable: " + err.Error()
+		}
+		if err == nil && w2 != nil {
+			w2.normalized = true
+			var second []Obligation
+			w2.rulesV4ScoreOn(&second)
+			bad2 := 0
+			for _, o := range second {
+				if !o.OK {
+					bad2++
+				}
+			}
+			w.Extra["v4_normalisation"] = fmt.Sprintf("%d failing obligations before, %d after: %s", bad, bad2, strings.Join(notes, "; "))
+			if bad2 < bad || os.Getenv("CVSSCHECK_FORCE_NORM") != "" {
+				second = append(second, Obligation{Rule: "R04.sibling", Instance: "40.Score.normalised", Pos: "40", OK: true, NonTrivial: true,
+					Detail: "Score analysed after source-level normalisation (equivalent program, type-checked through an overlay): " + strings.Join(notes, "; ")})
+				for k, v := range w2.Extra {
+					w.Extra[k] = v
+				}
+				*out = append(*out, second...)
+				return
+			}
+		}
+	}
+	*out = append(*out, first...)
+}
+
+func (w *World) rulesV4ScoreOn(out *[]Obligation) {
 	p := w.Pkgs["40"]
 	ov := vocab["40"]
 	setm := p.SetModel()
